@@ -920,14 +920,21 @@ class _Exec:
     def if_(self, s: ast.If):
         c = self.expr(s.test)
         base = dict(self.env)
-        # then
+        # then: values that were merged under the same condition earlier are resolved
+        spec = any(is_term(v) and v[0] in ("phi", "ifexp") for v in base.values())
+        spec_then = spec_else = base
+        if spec:
+            spec_then = {k: specialise(v, (c,)) for k, v in base.items()}
+            spec_else = {k: specialise(v, (("not", c),)) for k, v in base.items()}
+            self.env.clear()
+            self.env.update(spec_then)
         self.conds.append(c)
         st1 = self.block(s.body)
         self.conds.pop()
         env1 = dict(self.env)
         # else
         self.env.clear()
-        self.env.update(base)
+        self.env.update(spec_else)
         self.conds.append(("not", c))
         st2 = self.block(s.orelse)
         self.conds.pop()
@@ -947,7 +954,10 @@ class _Exec:
             return "fall", 1
         for k in set(env1) | set(env2):
             a, b = env1.get(k, UNDEF), env2.get(k, UNDEF)
-            self.env[k] = a if a == b else ("phi", c, a, b)
+            if k in base and a == spec_then.get(k) and b == spec_else.get(k):
+                self.env[k] = base[k]  # not touched by either branch
+            else:
+                self.env[k] = a if a == b else ("phi", c, a, b)
         return "fall", 0
 
     def for_(self, s: ast.For):
